@@ -13,7 +13,7 @@ Ltac gen_unfold :=
     msdLat, msdCart, set_anisotropy, set_U, set_Uisoequiv, set_Bisoequiv, get_Bisoequiv, get_U,
     set_U11, set_U22, set_U33, set_U12, set_U13, set_U23, set_B11, set_B22, set_B33, set_B12, set_B13, set_B23,
     get_U11, get_U22, get_U33, get_U12, get_U13, get_U23, get_B11, get_B22, get_B33, get_B12, get_B13, get_B23,
-    set_Uij, get_Uij, get_Uisoequiv, get_anisotropy, Lattice_norm, Lattice_cartesian, c_UtoB, c_BtoU, c_lat_epsilon in *;
+    set_Uij, get_Uij, get_Uisoequiv, get_anisotropy, Lattice_norm, Lattice_cartesian, c_UtoB, c_BtoU, c_lat_epsilon, copy_Atom in *;
   cbv zeta in *;
   cbn [RC cO cpi csqrt ccart st_U st_aniso st_lat set_stU set_staniso set_stlat fst snd lat_or negb andb idx_eqb Bool.eqb
        cart_lat l_a l_b l_c l_ar l_br l_cr l_ca l_cb l_cg l_metrics l_base l_normbase l_isotropicunit l_epsilon] in *.
@@ -146,6 +146,7 @@ Proof.
     split; cbn [set_stU st_aniso st_U st_lat]; [rewrite E; discriminate | exact Hl].
   - destruct Hi as [Hs Hl]. destruct s as [U an lat]. gen_unfold. cbn [st_aniso st_U st_lat] in *.
     destruct an; cbn [negb fst]; split; cbn [st_aniso st_U st_lat]; try exact Hl; try discriminate. exact Hs.
+  - destruct s as [U an lat]. exact Hi.
 Qed.
 
 Lemma run_inv ops : forall s, inv s -> Forall op_ok ops -> inv (run C s ops).
